@@ -296,6 +296,18 @@ def _case_body(ch, out, models, spec, path, o, variant, twin):
             rs = np.random.RandomState(ch.draw("shuffle_seed", 1 << 16))
             rs.shuffle(cat)
         reuse = ch.chance("prior_same_finder", 1, 2)
+        ppath, pspec = path, spec
+        if spec["sources"] and ch.chance("second_epoch", 1, 4):
+            # "second epoch": the same sky with a blanked patch over one of the catalogued sources, so that an input
+            # island yields no output; a finder that already holds the first image cannot be reused for another image
+            sx_, sy_ = spec["sources"][ch.draw("epoch_src", len(spec["sources"]))][:2]
+            pspec = dict(spec, nan_patch=(max(0, int(sx_) - 4), max(0, int(sy_) - 4), 9))
+            ppath = fm.write_image(pspec, os.path.join(fm.tmpdir(), "epoch2.fits"))
+            reuse = False
+            out.stats["probe:priorized_second_epoch"] += 1
+            history.append("second-epoch-image")
+        path_blind, spec_blind = path, spec
+        path, spec = ppath, pspec
         history.append("priorized(stage=%d,regroup=%s,%s)" % (p["stage"], p["regroup"], "same finder" if reuse else "fresh finder"))
         out.sample["priorized"] = dict(p)
         counter = fm.CallCounter()
@@ -327,6 +339,8 @@ def _case_body(ch, out, models, spec, path, o, variant, twin):
     # ---- one injected fit fault
     if ch.chance("do_fault", 1, 2):
         target = "priorized" if (P is not None and ch.chance("fault_in_priorized", 1, 2)) else "blind"
+        if P is not None and target == "blind":
+            path, spec = path_blind, spec_blind
         ncalls = ncalls_prior if target == "priorized" else ncalls_blind
         if ncalls > 0:
             k = ch.draw("fault_call", ncalls)
